@@ -59,4 +59,14 @@ PROPS = {
                                      "order-independence of the logic is proved per model (this file gathers the theorems); data-race freedom is not proved"],
         "assumptions": ["the Go scheduler can only reorder job completions and delay cancellation visibility", "byte equality of outputs across variations is the determinism observable"],
     },
+    "C18": {
+        "harness": "c18", "protocol": "c18", "level": "proof", "stateful": False,
+        "rule": "One line = one image (1-3 generated .proto files compiled in-process with protocompile in buf's source-info mode plus the WKT files they import, or hand-built descriptors with arbitrary packages / pre-set options / unknown fields / malformed source-info lists, incl. files at WKT paths) x one managed config (enabled/disabled, 0-4 disable and 0-6 override rules over path/module/file option/field option/field; 50% through the exported constructors, 30% rendered as buf.gen.yaml v2 and 20% as v1 text parsed by bufconfig's reader) x preserve-existing flag, through bufimagemodify.Modify; descriptors diffed before/after by a proto reflection walk; the changed (file, option)=value pairs and the removed source-info location indices are compared with the Lean model. Helper lines tie datawkt.Exists, stringutil.ToPascalCase and protoversion.NewPackageVersionForPackage. A line is non-trivial when something changed or Modify returned an error; distinct = distinct protocol lines.",
+        "trusted_base": COMMON_TB + ["protocompile (source -> descriptor + source info) is only a generator of inputs here",
+                                     "the harness's own descriptor walk (field full names and SourceCodeInfo paths) and reflection diff",
+                                     "casing helpers are modelled on ASCII; Go's path.Join/path.Dir are taken to equal the normalpath model of C13"],
+        "assumptions": ["package names have no empty dot-separated component (objcClassPrefixValue indexes the first rune of each)",
+                        "package and file names are ASCII where the casing helpers look at them",
+                        "override rules are built by bufconfig's constructors (value type matches the option)"],
+    },
 }
